@@ -48,6 +48,7 @@ def handleHStep (l : Line) : List Verdict :=
       contacted := ← l.nat? "contacted", granted := ← l.nat? "granted", hasbody := ← l.bool? "hasbody", bactive := ← l.bool? "bactive",
       bnext := ← l.int? "bnext", bcooldown := ← l.bool? "bcooldown", cleared := ← l.bool? "cleared", leak := ← l.str? "leak", nocache := ← l.bool? "nocache", post }
     let newrt ← l.str? "newrt"
+    let dup := (l.bool? "dup").getD false
     let hop ← l.bool? "hop"
     let sidmatch ← l.bool? "sidmatch"
     let cfg : Cfg := { mode := (match x.mode with | 0 => .standalone | 1 => .ssoServer | _ => .ssoProxy), forwardAuth := x.cfwd, inactivity := x.inact,
@@ -86,7 +87,8 @@ def handleHStep (l : Line) : List Verdict :=
                           (if sidmatch then cmpStore post .absent else cmpStore post st)
       | _ => ["unknown op"]
     let _ := b2n
-    pure (verdictsOf diffs (Ww.Spec.Sys.check x))
+    pure (verdictsOf diffs (Ww.Spec.Sys.check x ++
+      (if dup then [("C07.token_presented_twice.history", "a refresh-token value the provider had already redeemed was presented again")] else [])))
   r.getD [Verdict.bad "hstep"]
 
 def handleHAfter (l : Line) : List Verdict :=
